@@ -735,8 +735,15 @@ def parse_model(model: str, *, check_syntax: bool = True) -> List[Symbol]:
 
                     # Check for exceptions when trying to compile the current
                     # equation (compile only: never run the model's statements)
+                    # as it will appear in the model class i.e. inside a method,
+                    # after other statements (some statements are only valid,
+                    # or only invalid, there)
                     try:
-                        compile(e, '<string>', 'exec')
+                        compile(
+                            'def _evaluate(self, t):\n    pass\n' + textwrap.indent(e, '    '),
+                            '<string>',
+                            'exec',
+                        )
                     except NameError:  # Ignore name errors (undefined variables)
                         pass
                     except SyntaxError:
